@@ -421,9 +421,26 @@ func checkC11(c any) *ev.Verdict {
 				out.Panic = fmt.Sprint(r)
 			}
 		}()
+		// its own, plain values: nothing the case's runs are about to see for the first time
 		vars := map[string]string{}
-		for k, x := range ec.Vars {
-			vars[k] = x
+		for _, d := range ec.Script.Vars {
+			if _, ok := ec.Vars[d.Name]; !ok {
+				continue
+			}
+			switch d.Type {
+			case "number":
+				vars[d.Name] = "5"
+			case "monetary":
+				vars[d.Name] = "USD 5"
+			case "portion":
+				vars[d.Name] = "1/2"
+			case "account":
+				vars[d.Name] = "a"
+			case "asset":
+				vars[d.Name] = "USD"
+			default:
+				vars[d.Name] = "s"
+			}
 		}
 		res, err := pr2.RunWithFeatureFlags(context.Background(), vars, staticStore(ec), flags)
 		return hx.Normalise(res, err)
